@@ -1,4 +1,4 @@
-(* C01: the position the code returns on a converged exit is within 1e-6 km (1 mm) of the position the report
+(* C01: the position (velocity) the code returns on a converged exit is within 1e-6 km (1e-9 km/s) of the one the report
    defines - the finishing map at the EXACT solution of Kepler's equation - for semi-major axis <= 2 earth radii and
    eL^2 <= 4/25, over the reals.  Chain: exit theorem (state = finishing map at Ew, residual < 1e-12), Kepler
    (|Ew - E*| (1 - eL) < 1e-12), Lipschitz bound of the position in Ew (310000 km/rad). *)
@@ -16,6 +16,14 @@ Lemma kep_pos radius theta eqinc ascn rdk rfdk :
   gen_kep2xyz_z radius theta eqinc ascn rdk rfdk = radius * Uz theta ascn eqinc.
 Proof.
   unfold gen_kep2xyz_x, gen_kep2xyz_y, gen_kep2xyz_z, Ux, Uy, Uz. cbv zeta. repeat split; ring.
+Qed.
+
+Lemma kep_vel radius theta eqinc ascn rdk rfdk :
+  gen_kep2xyz_vx radius theta eqinc ascn rdk rfdk = rdk * Ux theta ascn eqinc + rfdk * Vx theta ascn eqinc /\
+  gen_kep2xyz_vy radius theta eqinc ascn rdk rfdk = rdk * Uy theta ascn eqinc + rfdk * Vy theta ascn eqinc /\
+  gen_kep2xyz_vz radius theta eqinc ascn rdk rfdk = rdk * Uz theta ascn eqinc + rfdk * Vz theta ascn eqinc.
+Proof.
+  unfold gen_kep2xyz_vx, gen_kep2xyz_vy, gen_kep2xyz_vz, Ux, Uy, Uz, Vx, Vy, Vz. cbv zeta. repeat split; ring.
 Qed.
 
 Section Generic.
@@ -46,6 +54,27 @@ Section Generic.
     { pose proof (Rabs_pos (Ew - Es)). nra. }
     repeat split; lra.
   Qed.
+  (* the same for the velocity [km/s] *)
+  Lemma velocity_close Ew Es radius theta eqinc ascn rdk rfdk :
+    theta = uk el t e Ew (atan2 (sinu el t e Ew) (cosu el t e Ew)) ->
+    eqinc = ik el t e Ew -> ascn = Ok el t e Ew ->
+    rdk = rdotk el t e Ew * (XKMPER / aE * min_per_day / 86400) ->
+    rfdk = rfdotk el t e Ew * (XKMPER / aE * min_per_day / 86400) ->
+    (1 - sqrt (eL2 el t e)) * Rabs (Ew - Es) < 1 / 1000000000000 ->
+    Rabs (gen_kep2xyz_vx radius theta eqinc ascn rdk rfdk - Vxk el t e Es) <= 1 / 1000000000 /\
+    Rabs (gen_kep2xyz_vy radius theta eqinc ascn rdk rfdk - Vyk el t e Es) <= 1 / 1000000000 /\
+    Rabs (gen_kep2xyz_vz radius theta eqinc ascn rdk rfdk - Vzk el t e Es) <= 1 / 1000000000.
+  Proof.
+    intros Ht Hi Ho Hd Hf Hk.
+    destruct (kep_vel radius theta eqinc ascn rdk rfdk) as [Kx [Ky Kz]].
+    destruct (velocity_is_report el t e HA1 HeL Ew) as [Rx [Ry Rz]]. cbv zeta in Rx, Ry, Rz. unfold vfac in Rx, Ry, Rz.
+    rewrite Kx, Ky, Kz, Ht, Hi, Ho, Hd, Hf, <- Rx, <- Ry, <- Rz.
+    destruct (velocity_lipschitz el t e HA1 HA2 HeL Ew Es) as [Lx [Ly Lz]].
+    assert (Hq : sqrt (eL2 el t e) <= 2 / 5) by (apply (q_le el t e HeL)).
+    assert (Hdd : Rabs (Ew - Es) <= 5 / 3 * (1 / 1000000000000)).
+    { pose proof (Rabs_pos (Ew - Es)). nra. }
+    repeat split; lra.
+  Qed.
 End Generic.
 
 (* e0 > 1e-4 (leaf 1) *)
@@ -60,15 +89,20 @@ Theorem position_accuracy_leaf1 e0 i r w m n b ts j Ucap Ew radius theta eqinc a
     (forall Es', kepler_residual El T ec Ucap Es' = 0 -> Es' = Es) /\
     Rabs (gen_kep2xyz_x radius theta eqinc ascn rdk rfdk - Pxf El T ec Es) <= 1 / 1000000 /\
     Rabs (gen_kep2xyz_y radius theta eqinc ascn rdk rfdk - Pyf El T ec Es) <= 1 / 1000000 /\
-    Rabs (gen_kep2xyz_z radius theta eqinc ascn rdk rfdk - Pzf El T ec Es) <= 1 / 1000000.
+    Rabs (gen_kep2xyz_z radius theta eqinc ascn rdk rfdk - Pzf El T ec Es) <= 1 / 1000000 /\
+    Rabs (gen_kep2xyz_vx radius theta eqinc ascn rdk rfdk - Vxk El T ec Es) <= 1 / 1000000000 /\
+    Rabs (gen_kep2xyz_vy radius theta eqinc ascn rdk rfdk - Vyk El T ec Es) <= 1 / 1000000000 /\
+    Rabs (gen_kep2xyz_vz radius theta eqinc ascn rdk rfdk - Vzk El T ec Es) <= 1 / 1000000000.
 Proof.
   intros Hleaf Hp Hex El T ec Hres HA2 HeL.
   destruct (prop_ok_guards _ _ _ _ _ _ _ _ Hleaf _ Hp) as [G1 _]. fold El T in G1.
   destruct (kepler_accuracy e0 i r w m n b ts Hleaf j Ucap Ew _ Hp Hres) as [Es [H0 [Hu [_ [_ Hk]]]]].
   fold El T ec in H0, Hu, Hk.
-  destruct Hex as [Hr [Ht [Hi [Ho _]]]]. fold El T ec in Hr, Ht, Hi, Ho.
+  destruct Hex as [Hr [Ht [Hi [Ho [Hd [Hf _]]]]]]. fold El T ec in Hr, Ht, Hi, Ho, Hd, Hf.
   exists Es. split; [exact H0|]. split; [exact Hu|].
-  apply (position_close El T ec G1 HA2 HeL Ew Es); assumption.
+  destruct (position_close El T ec G1 HA2 HeL Ew Es radius theta eqinc ascn rdk rfdk Hr Ht Hi Ho Hk) as [P1 [P2 P3]].
+  destruct (velocity_close El T ec G1 HA2 HeL Ew Es radius theta eqinc ascn rdk rfdk Ht Hi Ho Hd Hf Hk) as [V1 [V2 V3]].
+  repeat split; assumption.
 Qed.
 
 (* e0 <= 1e-4 (leaf 3) *)
@@ -83,13 +117,18 @@ Theorem position_accuracy_leaf3 e0 i r w m n b ts j Ucap Ew radius theta eqinc a
     (forall Es', kepler_residual El T ec Ucap Es' = 0 -> Es' = Es) /\
     Rabs (gen_kep2xyz_x radius theta eqinc ascn rdk rfdk - Pxf El T ec Es) <= 1 / 1000000 /\
     Rabs (gen_kep2xyz_y radius theta eqinc ascn rdk rfdk - Pyf El T ec Es) <= 1 / 1000000 /\
-    Rabs (gen_kep2xyz_z radius theta eqinc ascn rdk rfdk - Pzf El T ec Es) <= 1 / 1000000.
+    Rabs (gen_kep2xyz_z radius theta eqinc ascn rdk rfdk - Pzf El T ec Es) <= 1 / 1000000 /\
+    Rabs (gen_kep2xyz_vx radius theta eqinc ascn rdk rfdk - Vxk El T ec Es) <= 1 / 1000000000 /\
+    Rabs (gen_kep2xyz_vy radius theta eqinc ascn rdk rfdk - Vyk El T ec Es) <= 1 / 1000000000 /\
+    Rabs (gen_kep2xyz_vz radius theta eqinc ascn rdk rfdk - Vzk El T ec Es) <= 1 / 1000000000.
 Proof.
   intros Hleaf Hp Hex El T ec Hres HA2 HeL.
   destruct (prop_ok_guards3 _ _ _ _ _ _ _ _ Hleaf _ Hp) as [G1 _]. fold El T in G1.
   destruct (kepler_accuracy3 e0 i r w m n b ts Hleaf j Ucap Ew _ Hp Hres) as [Es [H0 [Hu [_ [_ Hk]]]]].
   fold El T ec in H0, Hu, Hk.
-  destruct Hex as [Hr [Ht [Hi [Ho _]]]]. fold El T ec in Hr, Ht, Hi, Ho.
+  destruct Hex as [Hr [Ht [Hi [Ho [Hd [Hf _]]]]]]. fold El T ec in Hr, Ht, Hi, Ho, Hd, Hf.
   exists Es. split; [exact H0|]. split; [exact Hu|].
-  apply (position_close El T ec G1 HA2 HeL Ew Es); assumption.
+  destruct (position_close El T ec G1 HA2 HeL Ew Es radius theta eqinc ascn rdk rfdk Hr Ht Hi Ho Hk) as [P1 [P2 P3]].
+  destruct (velocity_close El T ec G1 HA2 HeL Ew Es radius theta eqinc ascn rdk rfdk Ht Hi Ho Hd Hf Hk) as [V1 [V2 V3]].
+  repeat split; assumption.
 Qed.
